@@ -66,7 +66,7 @@ CHECKS = {
    "runtime monitoring: incremental prefix-equality oracle + close-propagation and resource-return checks on real tunnels", "4/C07"),
  "C08": (E2, "exploration",
    "Runtime monitor: a raw-socket client and a raw recording responder on a piko listener compare, per seeded request, what was sent with what the upstream saw and what the upstream answered with what the client received, modulo the documented additions; the gateway failure matrix (400/502/504, upgrade exemption, timing bounds) is enumerated completely on the local and the forwarded path with a 20 s no-hang watchdog.",
-   "Only RFC-legal request targets (no raw non-ASCII); reason phrases, header-name case and framing headers are not compared; responses always carry a Content-Type.",
+   "Only RFC-legal request targets (no raw non-ASCII); reason phrases, header-name case and framing headers are not compared; responses always carry a Content-Type. The agent's HTTP reverse proxy (agent/reverseproxy) is on the path for a third of the transparency requests and has its own fault matrix (502/504 at the agent's timeout, upgrades exempt).",
    "runtime monitoring: differential wire-level oracle (sent vs seen, answered vs received) + enumerated fault matrix with timing bounds", "4/C08"),
  "C09": (E2, "fault_enumeration",
    "Runtime monitor on fully assembled real nodes with authentication on all three ports: the complete route x token-variation x key-configuration matrix (routes read from the running engines; ~70 token variations incl. alg=none, algorithm confusion, tampering, expiry/nbf, audience/issuer, JWKS kid handling, header precedence) is sent through raw sockets; a non-valid token must get 401 with nothing observed behind the port, a valid one exactly what the unauthenticated twin answers.",
